@@ -46,6 +46,8 @@ type region struct {
 	// a method spliced at a call of a function value bound to a method value: what its receiver is
 	recvX  ast.Expr
 	recvPt Point
+	// a binding frame only: the call of a closure factory whose literal was spliced (no blocks of its own)
+	pseudo bool
 }
 
 type retInfo struct {
@@ -844,6 +846,20 @@ func (f *FuncCFG) expandBoolTemp(ft fact, pt Point, depth int) []fact {
 		return []fact{ft}
 	}
 	defs, fromEntry := f.ReachingDefs(pt, obj)
+	if len(defs) == 0 && fromEntry {
+		// a boolean parameter of a spliced helper, never reassigned there: it is the argument
+		// expression as evaluated at the call (`notify(old < new, old > new)` / `if increased`)
+		if arg, cpt, ok := f.paramArg(obj, pt); ok {
+			var out []fact
+			for _, sub := range factsOn(arg, ft.Pol) {
+				out = append(out, f.expandBoolTemp(sub, cpt, depth-1)...)
+			}
+			if len(out) == 0 {
+				return nil
+			}
+			return out
+		}
+	}
 	if len(defs) != 1 || fromEntry || defs[0].Rhs == nil {
 		return []fact{ft}
 	}
@@ -1677,6 +1693,7 @@ func (f *FuncCFG) expand(depth int, onStack map[*types.Func]bool) {
 			var fd *ast.FuncDecl
 			var recvX ast.Expr
 			var recvPt Point
+			var litEnv *region
 			fn := staticCallee(f.Info, call)
 			if fn != nil {
 				if f.rescan[b] {
@@ -1695,7 +1712,8 @@ func (f *FuncCFG) expand(depth int, onStack map[*types.Func]bool) {
 				// defined once, or a parameter of a spliced helper that was handed a literal
 				// (`forEach(func(k, v) {...})` with `visit(k, v)` inside forEach). Splicing the
 				// literal's body at the call is exact inlining.
-				ft, body := f.boundLiteral(call.Fun, Point{b, i})
+				ft, body, env := f.boundLiteralEnv(call.Fun, Point{b, i})
+				litEnv = env
 				if body == nil {
 					// ... or one method value of an unexported method (`t.locked(t.release)`): the
 					// method's body with its receiver standing for the value's receiver expression
@@ -1730,6 +1748,12 @@ func (f *FuncCFG) expand(depth int, onStack map[*types.Func]bool) {
 			}
 			f.regionOf[tail] = f.regionOf[b]
 			reg := &region{call: call, fd: fd, callPt: Point{tail, 0}, parent: f.regionOf[b], recvX: recvX, recvPt: recvPt}
+			if litEnv != nil && recvX == nil {
+				// the literal came out of a closure factory: the factory's bindings sit between the
+				// literal and the frame of the call
+				litEnv.parent = f.regionOf[b]
+				reg.parent = litEnv
+			}
 			b.Nodes = b.Nodes[:i:i]
 			entry := sub.G.Blocks[0]
 			b.Succs = []*cfg.Block{entry}
@@ -2151,7 +2175,7 @@ func (f *FuncCFG) regionByCall(c *ast.CallExpr) *region {
 	for _, reg := range f.regionOf {
 		for r := reg; r != nil && !seen[r]; r = r.parent {
 			seen[r] = true
-			if r.call == c {
+			if r.call == c && !r.pseudo {
 				return r
 			}
 		}
@@ -3000,18 +3024,61 @@ func (f *FuncCFG) regionChain(b *cfg.Block) []string {
 // a variable with exactly one definition (a literal), or of a parameter of a spliced helper whose
 // argument is such a variable or a literal (followed through up to four hops).
 func (f *FuncCFG) boundLiteral(e ast.Expr, pt Point) (*ast.FuncType, *ast.BlockStmt) {
+	ft, body, _ := f.boundLiteralEnv(e, pt)
+	return ft, body
+}
+
+// closureFactory: call is a call of a function of the analysed package whose whole body is
+// `return func(...) {...}`: the literal it returns and the factory's declaration.
+func closureFactory(p *Prog, info *types.Info, call *ast.CallExpr) (*ast.FuncLit, *ast.FuncDecl) {
+	if p == nil {
+		return nil, nil
+	}
+	fn := staticCallee(info, call)
+	if fn == nil {
+		return nil, nil
+	}
+	fd := p.decls().byFunc[fn.Origin()]
+	if fd == nil || fd.Body == nil || p.decls().infoOf[fd] != info || len(fd.Body.List) != 1 {
+		return nil, nil
+	}
+	rs, ok := fd.Body.List[0].(*ast.ReturnStmt)
+	if !ok || len(rs.Results) != 1 {
+		return nil, nil
+	}
+	lit, _ := ast.Unparen(rs.Results[0]).(*ast.FuncLit)
+	if lit == nil {
+		return nil, nil
+	}
+	return lit, fd
+}
+
+// boundLiteralEnv is boundLiteral that also looks through closure factories: a function value
+// produced by `recv.factory(args)` is the literal the factory returns, with the factory's receiver
+// and parameters bound to the call's receiver and arguments (env: a binding-only region).
+func (f *FuncCFG) boundLiteralEnv(e ast.Expr, pt Point) (*ast.FuncType, *ast.BlockStmt, *region) {
 	cur := e
 	for hops := 0; hops < 5; hops++ {
 		switch x := ast.Unparen(cur).(type) {
+		case *ast.CallExpr:
+			lit, fd := closureFactory(f.P, f.Info, x)
+			if lit == nil {
+				return nil, nil, nil
+			}
+			defPt := pt
+			if dp, found := f.PointOf(x); found {
+				defPt = dp
+			}
+			return lit.Type, lit.Body, &region{call: x, fd: fd, callPt: defPt, pseudo: true}
 		case *ast.FuncLit:
-			return x.Type, x.Body
+			return x.Type, x.Body, nil
 		case *ast.Ident:
 			o, _ := f.Info.Uses[x].(*types.Var)
 			if o == nil {
-				return nil, nil
+				return nil, nil, nil
 			}
 			if _, isFn := o.Type().Underlying().(*types.Signature); !isFn {
-				return nil, nil
+				return nil, nil, nil
 			}
 			if arg, apt, ok := f.paramArg(o, pt); ok {
 				cur, pt = arg, apt
@@ -3021,12 +3088,12 @@ func (f *FuncCFG) boundLiteral(e ast.Expr, pt Point) (*ast.FuncType, *ast.BlockS
 				cur = rhs
 				continue
 			}
-			return nil, nil
+			return nil, nil, nil
 		default:
-			return nil, nil
+			return nil, nil, nil
 		}
 	}
-	return nil, nil
+	return nil, nil, nil
 }
 
 // boundMethodValue: e (a function value called at pt) is bound, through the parameters of spliced
